@@ -1,8 +1,8 @@
 (* C13 — same input, same output: everything printed from a map is a function of the map,
    not of its iteration order.  Theorems only. *)
 From Coq Require Import List NArith ZArith QArith Qcanon Permutation.
-From Okv Require Import Base.Maps Base.Dec Model.Amount Model.Book Model.Query Model.Render
-     Proofs.MapsSort Proofs.RenderProofs.
+From Okv Require Import Base.Maps Base.Dec Model.Amount Model.Book Model.Query Model.Render Model.OrderSpec
+     Proofs.MapsSort Proofs.RenderProofs Proofs.OrderMaps Proofs.OrderAmount Proofs.OrderBook Proofs.OrderReports.
 Import ListNotations.
 
 (* the canonical (sorted) presentation of a duplicate-free map depends only on its contents *)
@@ -22,3 +22,178 @@ Theorem C13_balance_print_order_independent : forall b b' : balance,
   bal_equiv b b' -> render_balance b = render_balance b'.
 Proof. exact render_balance_equiv. Qed.
 Print Assumptions C13_balance_print_order_independent.
+
+(* ------------------------------------------------------------------------------------------
+   The book-keeping run itself.  Vocabulary: Model/OrderSpec.v.  `map_equiv m m'`: both
+   association lists are duplicate-free and agree through `get` (the same HashMap iterated in two
+   orders); `bal_equiv`: the same for the map of maps; `st_equiv`: balances, formats, stored
+   transactions (position by position, amounts up to map_equiv) and recorded price events (up to the
+   orientation of an implied exchange) are the same.  None of the theorems below assumes
+   reachability: `st_equiv s s'` already says every map involved is duplicate-free.
+   ------------------------------------------------------------------------------------------ *)
+
+(* map_equiv is exactly "same canonical (sorted) presentation", and the same as a permutation *)
+Theorem C13_map_equiv_iff_same_sorted_presentation : forall (V : Type) (m m' : amap V),
+  map_equiv m m' <-> NoDup (keys m) /\ NoDup (keys m') /\ sort_keys m = sort_keys m'.
+Proof. exact @map_equiv_iff_sorted. Qed.
+Print Assumptions C13_map_equiv_iff_same_sorted_presentation.
+
+Theorem C13_map_equiv_iff_permutation : forall (V : Type) (m m' : amap V),
+  map_equiv m m' <-> NoDup (keys m) /\ Permutation m m'.
+Proof. exact @map_equiv_iff_perm. Qed.
+Print Assumptions C13_map_equiv_iff_permutation.
+
+(* (2) every operation of Amount maps equivalent arguments to equivalent (or equal) results *)
+Theorem C13_amount_ops_respect_equiv : forall (a a' b b' : amount) (f f' : formats) k p c v,
+  map_equiv a a' -> map_equiv b b' -> map_equiv f f' ->
+  map_equiv (a_add a b) (a_add a' b') /\
+  map_equiv (a_sub a b) (a_sub a' b') /\
+  map_equiv (a_neg a) (a_neg a') /\
+  map_equiv (a_scale a k) (a_scale a' k) /\
+  map_equiv (a_div a k) (a_div a' k) /\
+  map_equiv (a_round f a) (a_round f' a') /\
+  map_equiv (a_remove_zeros a) (a_remove_zeros a') /\
+  map_equiv (a_add_pa a p) (a_add_pa a' p) /\
+  map_equiv (assert_balance a p) (assert_balance a' p) /\
+  map_equiv (fst (a_set_partial a c v)) (fst (a_set_partial a' c v)) /\
+  snd (a_set_partial a c v) = snd (a_set_partial a' c v) /\
+  a_get a c = a_get a' c /\
+  a_is_zero a = a_is_zero a' /\
+  a_is_absolute_zero a = a_is_absolute_zero a' /\
+  amount_to_pa a = amount_to_pa a' /\
+  amount_to_single a = amount_to_single a'.
+Proof. exact amount_ops_respect_equiv. Qed.
+Print Assumptions C13_amount_ops_respect_equiv.
+
+(* the evaluator: eval_e is a function of the expression alone and every amount it builds is a
+   duplicate-free map (related to itself); every operator and every conversion out of `Evaluated`
+   (to Amount, PostingAmount, SingleAmount: what `primitive eval`, posting amounts, costs and balance
+   assertions use) gives equal or equivalent results on equivalent values *)
+Theorem C13_eval_order_independent :
+  (forall e, res_equiv val_equiv (eval_e e) (eval_e e)) /\
+  (forall x x' y y', val_equiv x x' -> val_equiv y y' ->
+     res_equiv val_equiv (ev_add x y) (ev_add x' y') /\
+     res_equiv val_equiv (ev_sub x y) (ev_sub x' y') /\
+     res_equiv val_equiv (ev_mul x y) (ev_mul x' y') /\
+     res_equiv val_equiv (ev_div x y) (ev_div x' y')) /\
+  (forall x x', val_equiv x x' ->
+     val_equiv (ev_negate x) (ev_negate x') /\
+     ev_is_zero x = ev_is_zero x' /\
+     res_equiv map_equiv (ev_to_amount x) (ev_to_amount x') /\
+     ev_to_pa x = ev_to_pa x' /\
+     ev_to_single x = ev_to_single x').
+Proof. exact eval_order_independent. Qed.
+Print Assumptions C13_eval_order_independent.
+
+(* (3) check_balance: same verdict; accepted: postings filled in the same way, implied exchange the
+   same up to orientation; rejected: the same residual, printed identically; Panic only together *)
+Theorem C13_check_balance_respects_equiv : forall f f' d posts posts' r r',
+  map_equiv f f' -> Forall2 op_equiv posts posts' -> map_equiv r r' ->
+  out_equiv cb_equiv (check_balance f d posts r) (check_balance f' d posts' r') /\
+  (forall e e', check_balance f d posts r = Err e -> check_balance f' d posts' r' = Err e' ->
+                render_unbalanced e = render_unbalanced e' /\ render_err e = render_err e').
+Proof. exact check_balance_respects_equiv. Qed.
+Print Assumptions C13_check_balance_respects_equiv.
+
+(* (4) the simulation, function by function *)
+Theorem C13_balance_ops_respect_equiv : forall b b' a p x x',
+  bal_equiv b b' -> map_equiv x x' ->
+  map_equiv (bal_get b a) (bal_get b' a) /\
+  bal_equiv (fst (bal_add_pa b a p)) (fst (bal_add_pa b' a p)) /\
+  map_equiv (snd (bal_add_pa b a p)) (snd (bal_add_pa b' a p)) /\
+  bal_equiv (bal_add_amount b a x) (bal_add_amount b' a x') /\
+  out_equiv sp_equiv (bal_set_partial b a p) (bal_set_partial b' a p).
+Proof. exact balance_ops_respect_equiv. Qed.
+Print Assumptions C13_balance_ops_respect_equiv.
+
+Theorem C13_process_posting_respects_equiv : forall b b' date i p,
+  bal_equiv b b' -> out_equiv pp_equiv (process_posting b date i p) (process_posting b' date i p).
+Proof. exact process_posting_equiv. Qed.
+Print Assumptions C13_process_posting_respects_equiv.
+
+Theorem C13_loop_step_respects_equiv : forall date acc acc' ip,
+  out_equiv loop_equiv acc acc' -> out_equiv loop_equiv (loop_step date acc ip) (loop_step date acc' ip).
+Proof. exact loop_step_equiv. Qed.
+Print Assumptions C13_loop_step_respects_equiv.
+
+Theorem C13_add_transaction_respects_equiv : forall s s' t,
+  st_equiv s s' -> out_equiv st_equiv (add_transaction s t) (add_transaction s' t).
+Proof. exact add_transaction_equiv. Qed.
+Print Assumptions C13_add_transaction_respects_equiv.
+
+(* both runs fail with the same error (same kind, same indices, amount payloads equivalent, hence the
+   same text: C13_error_text_order_independent), or both panic, or both succeed in equivalent states *)
+Theorem C13_process_entry_respects_equiv : forall s s' e,
+  st_equiv s s' -> out_equiv st_equiv (process_entry s e) (process_entry s' e).
+Proof. exact process_entry_equiv. Qed.
+Print Assumptions C13_process_entry_respects_equiv.
+
+(* ... and so for any list of entries: same index of the failing entry, equivalent outcome *)
+Theorem C13_process_order_independent : forall es i s s',
+  st_equiv s s' -> run_equiv (process_from i s es) (process_from i s' es).
+Proof. exact process_from_equiv. Qed.
+Print Assumptions C13_process_order_independent.
+
+(* the iteration orders may change after every entry (run_any_order replaces the state by an
+   arbitrary equivalent one each time): all such runs over the same entries are equivalent, and
+   the model's own run `process_from` is one of them *)
+Theorem C13_run_any_order_deterministic : forall es i s s' r r',
+  st_equiv s s' -> run_any_order i s es r -> run_any_order i s' es r' -> run_equiv r r'.
+Proof. exact run_any_order_det. Qed.
+Print Assumptions C13_run_any_order_deterministic.
+
+Theorem C13_model_run_is_a_run : forall es i s,
+  st_equiv s s -> run_any_order i s es (process_from i s es).
+Proof. exact process_from_is_run. Qed.
+Print Assumptions C13_model_run_is_a_run.
+
+(* st_equiv is symmetric and transitive, holds of the initial state, and of every reachable state
+   with itself (all maps of a reachable state are duplicate-free) *)
+Theorem C13_state_equivalence :
+  (forall s s', st_equiv s s' -> st_equiv s' s) /\
+  (forall s1 s2 s3, st_equiv s1 s2 -> st_equiv s2 s3 -> st_equiv s1 s3) /\
+  st_equiv bstate0 bstate0 /\
+  (forall es s n, process es = (Ok s, n) -> st_equiv s s).
+Proof. exact st_equiv_equivalence. Qed.
+Print Assumptions C13_state_equivalence.
+
+(* stdout of `balance` (any date range) and `register` (any account filter) *)
+Theorem C13_reports_order_independent : forall s s', st_equiv s s' ->
+  (forall st en, render_balance (balance_report s st en) = render_balance (balance_report s' st en)) /\
+  render_register (all_postings s) = render_register (all_postings s') /\
+  (forall flt, render_register (postings_of s flt) = render_register (postings_of s' flt)).
+Proof. exact reports_order_independent. Qed.
+Print Assumptions C13_reports_order_independent.
+
+(* the text of an error, and of a failing run (printed error + index of the entry) *)
+Theorem C13_error_text_order_independent :
+  (forall e e', err_equiv e e' -> render_err e = render_err e' /\ render_unbalanced e = render_unbalanced e') /\
+  (forall r r', run_equiv r r' -> stderr_of r = stderr_of r').
+Proof. exact error_text_order_independent. Qed.
+Print Assumptions C13_error_text_order_independent.
+
+(* composed: any two runs over the same entries, whatever the iteration orders were along the way,
+   stop at the same entry with the same printed error, or end in states printing the same reports *)
+Theorem C13_run_deterministic : forall es i s s' r r',
+  st_equiv s s' -> run_any_order i s es r -> run_any_order i s' es r' ->
+  snd r = snd r' /\ stderr_of r = stderr_of r' /\
+  match fst r, fst r' with
+  | Ok f, Ok f' => st_equiv f f' /\
+                   (forall st en, stdout_balance f st en = stdout_balance f' st en) /\
+                   (forall flt, stdout_register f flt = stdout_register f' flt)
+  | Err _, Err _ => True
+  | Panic, Panic => True
+  | _, _ => False
+  end.
+Proof. exact runs_print_the_same. Qed.
+Print Assumptions C13_run_deterministic.
+
+(* the hypotheses are satisfiable non-trivially: a reachable state s and a differently ordered s'
+   (s <> s') that are equivalent; one more transaction leads to different, equivalent states *)
+Theorem C13_equivalent_states_that_differ_exist :
+  exists es s s' f f' n,
+    process es = (Ok s, n) /\ s <> s' /\ st_equiv s s' /\
+    (exists e, process_from n s [e] = (Ok f, S n) /\ process_from n s' [e] = (Ok f', S n)) /\
+    f <> f' /\ st_equiv f f'.
+Proof. exact examples_exist. Qed.
+Print Assumptions C13_equivalent_states_that_differ_exist.
